@@ -2,6 +2,7 @@ package main
 
 import (
 	"vharness/c01"
+	"vharness/c02"
 	"vharness/c03"
 	"vharness/c04"
 	"vharness/c05"
@@ -23,6 +24,7 @@ func add(pkg string, m map[string]func(*vrt.Ctx)) {
 
 func init() {
 	add("c01", c01.Harnesses)
+	add("c02", c02.Harnesses)
 	add("c03", c03.Harnesses)
 	add("c04", c04.Harnesses)
 	add("c05", c05.Harnesses)
